@@ -337,6 +337,8 @@ func (g *gen) applyContract(st *State, con *Contract, args []*Val, rt types.Type
 	if !con.Pure {
 		g.effect(st, "call of "+short, nil)
 	}
+	// the callee's frame must lie inside this function's own frame
+	g.checkCalleeFrame(st, env, con, lbl)
 	// frame
 	if con.ModAll {
 		g.havocAll(st, "call")
@@ -415,6 +417,12 @@ func (g *gen) havocLvalue(st *State, env *SpecEnv, m ast.Expr) {
 			g.havocMap(st, sv.V.L[0], sv.V.T.Underlying().(*types.Map))
 			return
 		}
+		// allof(T.field): that field of every object of struct type T
+		// allelems(T): the contents of every array with element type T
+		if id, ok := c.Fun.(*ast.Ident); ok && (id.Name == "allof" || id.Name == "allelems") && len(c.Args) == 1 {
+			g.havocTypeWide(st, env, id.Name, c.Args[0])
+			return
+		}
 	}
 	a := env.evalAddr(m)
 	if a == nil || a.V == nil {
@@ -484,6 +492,21 @@ func (g *gen) checkFrame(st *State, p *Val, et types.Type, pos token.Pos) {
 				continue
 			}
 			if id, ok := c.Fun.(*ast.Ident); ok && id.Name == "mapof" {
+				continue
+			}
+			if id, ok := c.Fun.(*ast.Ident); ok && id.Name == "allof" && len(c.Args) == 1 {
+				if sel, ok := c.Args[0].(*ast.SelectorExpr); ok {
+					if t := env.resolveType(sel.X); t != nil && !p.Addr.Elem && typeKey(t) == addrTypeKey(p.Addr) &&
+						(p.Addr.Path == sel.Sel.Name || strings.HasPrefix(p.Addr.Path, sel.Sel.Name+".")) {
+						allowed = True
+					}
+				}
+				continue
+			}
+			if id, ok := c.Fun.(*ast.Ident); ok && id.Name == "allelems" && len(c.Args) == 1 {
+				if t := env.resolveType(c.Args[0]); t != nil && p.Addr.Elem && typeKey(t) == addrTypeKey(p.Addr) {
+					allowed = True
+				}
 				continue
 			}
 		}
@@ -715,6 +738,12 @@ func (g *gen) checkFrameElems(st *State, p *Val, pos token.Pos, count *Term) {
 				}
 				continue
 			}
+			if id, ok := c.Fun.(*ast.Ident); ok && id.Name == "allelems" && len(c.Args) == 1 {
+				if t := env.resolveType(c.Args[0]); t != nil && typeKey(t) == addrTypeKey(p.Addr) {
+					allowed = True
+				}
+				continue
+			}
 		}
 		// single element target covers a bulk write of exactly that slot
 		if ix, ok := m.(*ast.IndexExpr); ok && count != nil {
@@ -866,7 +895,11 @@ func (g *gen) loopSpec(li *loopInfo) *LoopSpec {
 }
 
 func (g *gen) bindLoopVars(env *SpecEnv, li *loopInfo, phis []*ssa.Phi) {
+	g.bindLocals(env)
 	for name, v := range g.varAt {
+		if strings.HasPrefix(name, "&") {
+			continue
+		}
 		if val, ok := g.vals[v]; ok {
 			if _, isParam := env.vars[name]; !isParam {
 				env.vars[name] = &SV{V: val}
@@ -928,6 +961,24 @@ func (g *gen) checkStoreGuards(st *State, k LeafKey) {
 // bindLocals exposes source-level locals (dominator-correct) to a contract expression.
 func (g *gen) bindLocals(env *SpecEnv) {
 	for name, v := range g.varAt {
+		if strings.HasPrefix(name, "&") {
+			n := name[1:]
+			if _, isParam := env.vars[n]; isParam {
+				continue
+			}
+			if _, direct := g.varAt[n]; direct {
+				continue
+			}
+			if pv, ok := g.vals[v]; ok && pv.Addr != nil && pv.Addr.Known && isPointer(pv.T) {
+				et := pv.T.Underlying().(*types.Pointer).Elem()
+				if isStructT(et) {
+					env.vars[n] = &SV{Ptr: pv}
+				} else {
+					env.vars[n] = &SV{V: g.loadQuiet(env.cur, pv, et)}
+				}
+			}
+			continue
+		}
 		if _, isParam := env.vars[name]; isParam {
 			continue
 		}
@@ -936,5 +987,115 @@ func (g *gen) bindLocals(env *SpecEnv) {
 		} else if c, ok := v.(*ssa.Const); ok {
 			env.vars[name] = &SV{V: g.constVal(c)}
 		}
+	}
+}
+
+// havocTypeWide implements the modifies targets allof(T.f) and allelems(T).
+func (g *gen) havocTypeWide(st *State, env *SpecEnv, kind string, arg ast.Expr) {
+	var t types.Type
+	path := ""
+	if kind == "allof" {
+		sel, ok := arg.(*ast.SelectorExpr)
+		if !ok {
+			env.fail("allof(T.field) expected")
+			return
+		}
+		t = env.resolveType(sel.X)
+		if t == nil {
+			env.fail("allof: unknown type %s", exprString(sel.X))
+			return
+		}
+		st0, ok := t.Underlying().(*types.Struct)
+		if !ok {
+			env.fail("allof: not a struct type")
+			return
+		}
+		var ft types.Type
+		for i := 0; i < st0.NumFields(); i++ {
+			if st0.Field(i).Name() == sel.Sel.Name {
+				ft = st0.Field(i).Type()
+			}
+		}
+		if ft == nil {
+			env.fail("allof: no field %s", sel.Sel.Name)
+			return
+		}
+		a := &AddrInfo{Root: t, Path: sel.Sel.Name, Known: true}
+		for _, l := range leavesOf(ft) {
+			if l.Kind == LKOpaque {
+				continue
+			}
+			k := g.leafKeyL(a, l)
+			g.recordWrite(k, l.Sort())
+			old := st.heap.Get(k, l.Sort(), SInt)
+			nb := baseHV(FreshFunName("H.allof."+sanitize(k.String())), old.sort, old.hasKey, old.keySort)
+			setFacts(nb, k, st.wm)
+			st.heap = st.heap.With(k, nb)
+		}
+		_ = path
+		return
+	}
+	t = env.resolveType(arg)
+	if t == nil {
+		env.fail("allelems: unknown type %s", exprString(arg))
+		return
+	}
+	a := &AddrInfo{Root: t, Known: true, Elem: true}
+	for _, l := range leavesOf(t) {
+		if l.Kind == LKOpaque {
+			continue
+		}
+		k := g.leafKeyL(a, l)
+		g.recordWrite(k, l.Sort())
+		old := st.heap.Get(k, l.Sort(), SInt)
+		nb := baseHV(FreshFunName("H.allelems."+sanitize(k.String())), old.sort, old.hasKey, old.keySort)
+		setFacts(nb, k, st.wm)
+		st.heap = st.heap.With(k, nb)
+	}
+}
+
+func (g *gen) checkCalleeFrame(st *State, env *SpecEnv, con *Contract, lbl string) {
+	if g.con == nil || g.sweep || g.con.ModAll || g.dry > 0 {
+		return
+	}
+	pos := g.curPos()
+	if con.ModAll {
+		g.oblige(st, "frame", "call:"+lbl, False, "callee "+shortName(con.Key)+" modifies * but this function declares a narrower frame")
+		return
+	}
+	for i, m := range con.Modifies {
+		if c, ok := m.(*ast.CallExpr); ok {
+			if id, ok := c.Fun.(*ast.Ident); ok {
+				switch id.Name {
+				case "elems":
+					sv := env.eval(c.Args[0])
+					if sv != nil && sv.V != nil && isSlice(sv.V.T) {
+						et := sv.V.T.Underlying().(*types.Slice).Elem()
+						p := &Val{T: types.NewPointer(et), L: []*Term{sv.V.Arr()}, Addr: &AddrInfo{Root: et, Elem: true, Idx: sv.V.Off(), Known: true}}
+						st2 := &State{reach: And(st.reach, Lt(Int(0), sv.V.Len())), heap: st.heap, wm: st.wm}
+						g.checkFrameElems(st2, p, pos, nil)
+					}
+					continue
+				case "allof", "allelems", "mapof":
+					found := false
+					for _, own := range g.con.ModText {
+						if own == con.ModText[i] {
+							found = true
+						}
+					}
+					if !found {
+						g.oblige(st, "frame", "call:"+lbl, False, "callee frame "+con.ModText[i]+" is not part of this function's modifies clause")
+					}
+					continue
+				case "ghostbytes":
+				}
+			}
+		}
+		a := env.evalAddr(m)
+		if a == nil || a.V == nil || a.V.Addr == nil || !a.V.Addr.Known {
+			continue
+		}
+		et := a.V.T.Underlying().(*types.Pointer).Elem()
+		g.checkFrame(st, a.V, et, pos)
 	}
 }
